@@ -324,173 +324,55 @@ impl ExpressionParser {
     }
 
     fn parse_expression(&mut self) -> Result<Expression, CompilerError> {
-        self.parse_or()
-    }
-
-    fn parse_or(&mut self) -> Result<Expression, CompilerError> {
-        let mut expression = self.parse_and()?;
-
-        while self.match_token(&Token::OrOr) {
-            let right = self.parse_and()?;
-            expression = Expression::Binary {
-                left: Box::new(expression),
-                operator: BinaryOperator::Or,
-                right: Box::new(right),
-            };
-        }
-
-        Ok(expression)
-    }
-
-    fn parse_and(&mut self) -> Result<Expression, CompilerError> {
-        let mut expression = self.parse_equality()?;
-
-        while self.match_token(&Token::AndAnd) {
-            let right = self.parse_equality()?;
-            expression = Expression::Binary {
-                left: Box::new(expression),
-                operator: BinaryOperator::And,
-                right: Box::new(right),
-            };
-        }
-
-        Ok(expression)
+        self.parse_binary(0)
     }
 
     fn is_at_end(&self) -> bool {
         self.current >= self.tokens.len()
     }
 
-    fn parse_equality(&mut self) -> Result<Expression, CompilerError> {
-        let mut expression = self.parse_comparison()?;
-
-        loop {
-            if self.match_token(&Token::EqualEqual) {
-                let right = self.parse_comparison()?;
-                expression = Expression::Binary {
-                    left: Box::new(expression),
-                    operator: BinaryOperator::Equal,
-                    right: Box::new(right),
-                };
-            } else if self.match_token(&Token::NotEqual) {
-                let right = self.parse_comparison()?;
-                expression = Expression::Binary {
-                    left: Box::new(expression),
-                    operator: BinaryOperator::NotEqual,
-                    right: Box::new(right),
-                };
-            } else {
-                break;
-            }
-        }
-
-        Ok(expression)
+    /// The infix operator at the cursor and its binding strength. The strengths are
+    /// inklecate's: `-` binds tighter than `+`, `/` tighter than `*`, `&&` and `||` are
+    /// equally weak; operators of equal strength associate to the left.
+    fn peek_infix(&self) -> Option<(BinaryOperator, u8)> {
+        Some(match self.peek()? {
+            Token::AndAnd => (BinaryOperator::And, 1),
+            Token::OrOr => (BinaryOperator::Or, 1),
+            Token::EqualEqual => (BinaryOperator::Equal, 2),
+            Token::GreaterEqual => (BinaryOperator::GreaterEqual, 2),
+            Token::LessEqual => (BinaryOperator::LessEqual, 2),
+            Token::Less => (BinaryOperator::Less, 2),
+            Token::Greater => (BinaryOperator::Greater, 2),
+            Token::NotEqual => (BinaryOperator::NotEqual, 2),
+            Token::Has => (BinaryOperator::Has, 3),
+            Token::Hasnt => (BinaryOperator::Hasnt, 3),
+            Token::Caret => (BinaryOperator::Intersect, 3),
+            Token::Plus => (BinaryOperator::Add, 4),
+            Token::Minus => (BinaryOperator::Subtract, 5),
+            Token::Star => (BinaryOperator::Multiply, 6),
+            Token::Slash => (BinaryOperator::Divide, 7),
+            Token::Percent => (BinaryOperator::Modulo, 8),
+            Token::Ident(name) if name == "mod" => (BinaryOperator::Modulo, 8),
+            _ => return None,
+        })
     }
 
-    fn parse_comparison(&mut self) -> Result<Expression, CompilerError> {
-        let mut expression = self.parse_addition()?;
+    /// Precedence climbing: the right operand of an operator takes only operators that
+    /// bind tighter than it.
+    fn parse_binary(&mut self, min_precedence: u8) -> Result<Expression, CompilerError> {
+        let mut expression = self.parse_unary()?;
 
-        loop {
-            if self.match_token(&Token::Greater) {
-                let right = self.parse_addition()?;
-                expression = Expression::Binary {
-                    left: Box::new(expression),
-                    operator: BinaryOperator::Greater,
-                    right: Box::new(right),
-                };
-            } else if self.match_token(&Token::GreaterEqual) {
-                let right = self.parse_addition()?;
-                expression = Expression::Binary {
-                    left: Box::new(expression),
-                    operator: BinaryOperator::GreaterEqual,
-                    right: Box::new(right),
-                };
-            } else if self.match_token(&Token::Less) {
-                let right = self.parse_addition()?;
-                expression = Expression::Binary {
-                    left: Box::new(expression),
-                    operator: BinaryOperator::Less,
-                    right: Box::new(right),
-                };
-            } else if self.match_token(&Token::LessEqual) {
-                let right = self.parse_addition()?;
-                expression = Expression::Binary {
-                    left: Box::new(expression),
-                    operator: BinaryOperator::LessEqual,
-                    right: Box::new(right),
-                };
-            } else if self.match_token(&Token::Has) {
-                let right = self.parse_addition()?;
-                expression = Expression::Binary {
-                    left: Box::new(expression),
-                    operator: BinaryOperator::Has,
-                    right: Box::new(right),
-                };
-            } else if self.match_token(&Token::Hasnt) {
-                let right = self.parse_addition()?;
-                expression = Expression::Binary {
-                    left: Box::new(expression),
-                    operator: BinaryOperator::Hasnt,
-                    right: Box::new(right),
-                };
-            } else if self.match_token(&Token::Caret) {
-                let right = self.parse_addition()?;
-                expression = Expression::Binary {
-                    left: Box::new(expression),
-                    operator: BinaryOperator::Intersect,
-                    right: Box::new(right),
-                };
-            } else {
+        while let Some((operator, precedence)) = self.peek_infix() {
+            if precedence <= min_precedence {
                 break;
             }
-        }
-
-        Ok(expression)
-    }
-
-    fn parse_addition(&mut self) -> Result<Expression, CompilerError> {
-        let mut expression = self.parse_multiplication()?;
-
-        while let Some(operator) = self.match_additive_operator() {
-            let right = self.parse_multiplication()?;
+            self.current += 1;
+            let right = self.parse_binary(precedence)?;
             expression = Expression::Binary {
                 left: Box::new(expression),
                 operator,
                 right: Box::new(right),
             };
-        }
-
-        Ok(expression)
-    }
-
-    fn parse_multiplication(&mut self) -> Result<Expression, CompilerError> {
-        let mut expression = self.parse_unary()?;
-
-        loop {
-            if self.match_token(&Token::Star) {
-                let right = self.parse_unary()?;
-                expression = Expression::Binary {
-                    left: Box::new(expression),
-                    operator: BinaryOperator::Multiply,
-                    right: Box::new(right),
-                };
-            } else if self.match_token(&Token::Slash) {
-                let right = self.parse_unary()?;
-                expression = Expression::Binary {
-                    left: Box::new(expression),
-                    operator: BinaryOperator::Divide,
-                    right: Box::new(right),
-                };
-            } else if self.match_token(&Token::Percent) || self.match_identifier("mod") {
-                let right = self.parse_unary()?;
-                expression = Expression::Binary {
-                    left: Box::new(expression),
-                    operator: BinaryOperator::Modulo,
-                    right: Box::new(right),
-                };
-            } else {
-                break;
-            }
         }
 
         Ok(expression)
@@ -586,27 +468,8 @@ impl ExpressionParser {
         }
     }
 
-    fn match_additive_operator(&mut self) -> Option<BinaryOperator> {
-        if self.match_token(&Token::Plus) {
-            Some(BinaryOperator::Add)
-        } else if self.match_token(&Token::Minus) {
-            Some(BinaryOperator::Subtract)
-        } else {
-            None
-        }
-    }
-
     fn match_token(&mut self, token: &Token) -> bool {
         if self.peek() == Some(token) {
-            self.current += 1;
-            true
-        } else {
-            false
-        }
-    }
-
-    fn match_identifier(&mut self, name: &str) -> bool {
-        if self.peek() == Some(&Token::Ident(name.to_owned())) {
             self.current += 1;
             true
         } else {
